@@ -101,6 +101,17 @@ func (s *jwtSigner) load() error {
 			CausedBy(err)
 	}
 
+	if len(ks.Entries()) == 0 {
+		return errorchain.NewWithMessage(heimdall.ErrConfiguration, "no key material present in the key store")
+	}
+
+	for _, entry := range ks.Entries() {
+		if !isSupportedForSigning(entry) {
+			return errorchain.NewWithMessagef(heimdall.ErrConfiguration,
+				"key with id '%s' has an unsupported type or size (%s, %d bit)", entry.KeyID, entry.Alg, entry.KeySize)
+		}
+	}
+
 	var kse *keystore.Entry
 
 	if len(s.keyID) == 0 {
@@ -144,6 +155,18 @@ func (s *jwtSigner) load() error {
 	s.pubKeys = keys
 
 	return nil
+}
+
+// isSupportedForSigning reports whether a JOSE algorithm is defined for the type and the size of the given key.
+func isSupportedForSigning(entry *keystore.Entry) bool {
+	switch entry.Alg {
+	case keystore.AlgRSA:
+		return entry.KeySize == 2048 || entry.KeySize == 3072 || entry.KeySize == 4096 //nolint:mnd
+	case keystore.AlgECDSA:
+		return entry.KeySize == 256 || entry.KeySize == 384 || entry.KeySize == 521 //nolint:mnd
+	default:
+		return false
+	}
 }
 
 func (s *jwtSigner) Hash() []byte {
